@@ -145,7 +145,7 @@ class ExprMixin:
             self.alive_check(r, self.text(node), node)
             self.oblige('in_bounds', 'r:' + self.text(node), z3.ULT(idx, r.length),
                         'read %s within %s' % (self.text(node), r.name), node)
-            return self.select(self.st.mem[r.id], idx)
+            return self.select(self.st.mem[r.id], idx, r.id)
         if t == 'func':
             return FuncPtr(lv[1])
         raise Unsupported('load of %s lvalue' % t)
@@ -175,8 +175,12 @@ class ExprMixin:
             if r.const:
                 g = z3.BoolVal(False)
             self.oblige('in_bounds', 'w:' + self.text(node), g, 'write %s within %s' % (self.text(node), r.name), node)
-            si = z3.simplify(idx)
-            self.st.mem[r.id] = z3.Store(self.st.mem[r.id], si if z3.is_bv_value(si) else idx, v)
+            si = idx if z3.is_bv_value(idx) else z3.simplify(idx)
+            old_arr = self.st.mem[r.id]
+            new_arr = z3.Store(old_arr, si if z3.is_bv_value(si) else idx, v)
+            self.st.mem[r.id] = new_arr
+            if z3.is_bv_value(si):
+                self.store_lit(r.id, old_arr, new_arr, si.as_long(), v)
             self.st.written.add(r.id)
             return
         raise Unsupported('store to %s lvalue' % t)
